@@ -2266,7 +2266,9 @@ class Interp:
             unbound._raw = True  # type: ignore[attr-defined]
             return unbound
         if isinstance(obj, tuple) and len(obj) == 2 and obj[0] == "builtin" and obj[1] == "dict" and attr == "fromkeys":
-            return lambda keys, value=None: {k: value for k in self.dedupe(self.iterate(keys))}
+            fk_ = lambda keys, value=None: {k: value for k in self.dedupe(self.iterate(keys))}  # noqa: E731
+            fk_._raw = True  # type: ignore[attr-defined]
+            return fk_
         if isinstance(obj, tuple) and attr in getattr(obj, "_fields", ()):
             return getattr(obj, attr)
         if isinstance(obj, tuple) and hasattr(obj, "_fields") and self.pm.has_cls(type(obj).__name__):
